@@ -1,7 +1,7 @@
 (** C09 — non-vacuity: concrete instances of every hypothesis of the property theorems,
     and the model run on literals. *)
-From Coq Require Import ZArith List Bool Lia.
-From RlibV Require Import C09.Model C09.Spec C09.Proofs C09.Properties.
+From Coq Require Import ZArith List Bool Lia Uint63.
+From RlibV Require Import C09.Model C09.Corr C09.Spec C09.Proofs C09.Properties.
 Import ListNotations.
 Open Scope Z_scope.
 
@@ -81,3 +81,45 @@ Example round_trip_instance :
 Proof. apply c09_round_trip; [lia|exact some_ints_in_range]. Qed.
 Example parse_literal : parse_ints [32; 45; 49; 50; 10; 13; 55; 9; 48; 12] = Some [-12; 7; 0].
 Proof. vm_compute. reflexivity. Qed.
+
+(** c09_model_check_spec_check: a case as bin/check writes it (release flavour, the crate's
+    capacity; 50 received bytes packed seven to a word, flush seen at 44 bytes, both
+    executor verdicts positive); its hypotheses hold by computation, the conclusion by the theorem *)
+Definition some_case : case :=
+  Case 65536 false
+    [OWrite (VInt I8 (-128)); OChar 32; OWrite (VInt U128 (zv false [340;282366920938463463;374607431768211455]%uint63));
+     OFlush; OOutln [VInt U8 7; VInt I64 (-42)]]
+    (Ret (expand [Lit [84778059749667636;85623609861813814;88156850409912372;87313542120944439;
+               86753873539380017;87598332745167156;87034278682899506;266]%uint63])
+         [44] true (Some true)).
+Example some_case_in_scope : in_scope some_case = true.
+Proof. vm_compute. reflexivity. Qed.
+Example some_case_model_check : model_check some_case = true.
+Proof. vm_compute. reflexivity. Qed.
+Example some_case_spec_check : spec_check some_case = true.
+Proof. apply c09_model_check_spec_check; [exact some_case_in_scope|exact some_case_model_check]. Qed.
+(** the script is in the property's quantifier (the conclusion is not the vacuous branch) *)
+Example some_case_in_quantifier : forallb in_scope_op (c_ops some_case) = true.
+Proof. vm_compute. reflexivity. Qed.
+(** a panic observed below capacity 39 matches the model and fails the specification:
+    the capacity hypothesis of [in_scope] cannot be dropped for [Panic] observations *)
+Example small_capacity_panic :
+  let c := Case 38 false [OWrite (VInt U128 (2 ^ 128 - 1))] Panic in
+  model_check c = true /\ spec_check c = false /\ in_scope c = false.
+Proof. vm_compute. auto. Qed.
+(** c09_model_check_spec_check_any_capacity: capacity 5, nothing longer than 5 bytes in one piece *)
+Example any_capacity_instance :
+  let c := Case 5 true [OWrite (VInt I8 (-128)); OFlush; OWrite (str [Run 97 30%N])]
+                (Ret (expand [Lit [5053166136]%uint63; Run 97 30%N]) [4] true None) in
+  c_obs c <> Panic /\ executor_verdicts (c_obs c) = true /\ model_check c = true /\ spec_check c = true.
+Proof.
+  cbv zeta. split; [discriminate|]. split; [reflexivity|]. split; [vm_compute; reflexivity|].
+  apply c09_model_check_spec_check_any_capacity; [discriminate|reflexivity|vm_compute; reflexivity].
+Qed.
+(** c09_run_some_delivers below capacity 39 *)
+Example run_some_instance :
+  run 5 false script = None /\
+  run 5 false [OWrite (VInt I8 (-128)); OFlush; OWrite (VStr [1;2;3;4;5;6;7])] = Some ([45;49;50;56;1;2;3;4;5;6;7], [4]).
+Proof. split; vm_compute; reflexivity. Qed.
+Example sdec_dec_instance : sdec (- 2 ^ 127) = dec (- 2 ^ 127) /\ dec 0 = [48] /\ dec (-7) = [45; 55].
+Proof. split; [apply c09_sdec_is_dec|split; vm_compute; reflexivity]. Qed.
